@@ -123,7 +123,8 @@ CHECKS = {
          "note": BASE_NOTE + " Known findings D21 (matmul with 1-d operands) and D22 (prod over an axis tuple) are pinned by the package's docstrings/tests and reported as KNOWN-FINDING."},
  "C11": {"ref": "5/C11", "technique": "Lean 4 pattern theorems + decide over the regenerated registries (every registered function classified) + correspondence against numpy on constants",
          "text": "registry_classified (decide over the registries regenerated from /repo): every registered function has a "
-                 "dispatch pattern; columnwise_const / den_constRows / tonumpy_reads_constant_row prove the column-wise "
+                 "dispatch pattern; signatures_mirror_numpy (decide over the call signatures regenerated from /repo and numpy): "
+                 "argument names, order and shared defaults are numpy's up to 12 reviewed deviations; columnwise_const / den_constRows / tonumpy_reads_constant_row prove the column-wise "
                  "pattern on constants (f 0 = 0 keeps retained zero columns zero; the value is read from the all-zero "
                  "exponent row). constant_iff (constant with value c <=> denotes C c) turns every denotation theorem into a "
                  "statement on values: const_arith, const_gather, const_linear, const_prod, const_bilinear, const_compare - on "
